@@ -103,29 +103,7 @@ func (c *Concretiser) prepScript(q M) string {
 			}
 		}
 		if toks := L(st, "toks"); toks != nil {
-			// render the token sequence into the query text
-			var sb strings.Builder
-			sb.WriteString(key)
-			sb.WriteString(" ")
-			for _, tv := range toks {
-				t := AsM(tv)
-				switch S(t, "k") {
-				case "text":
-					sb.WriteString(c.fillerText())
-				case "q":
-					sb.WriteString("?")
-				case "d":
-					n := I(t, "n")
-					if n < 0 {
-						big := []string{"65536", "70000", "4294967296", "9223372036854775807", "9223372036854775808", "18446744073709551616", "99999999999999999999999999"}
-						sb.WriteString("$" + big[c.Rng.Intn(len(big))])
-					} else {
-						sb.WriteString(fmt.Sprintf("$%d", n))
-					}
-				}
-				sb.WriteString(" ")
-			}
-			return sb.String()
+			return key + " " + c.RenderToks(toks)
 		}
 	}
 	if pad := I(q, "pad"); pad > 0 {
@@ -135,6 +113,30 @@ func (c *Concretiser) prepScript(q M) string {
 		}
 	}
 	return key
+}
+
+// RenderToks renders a token sequence into query text with random filler.
+func (c *Concretiser) RenderToks(toks []any) string {
+	var sb strings.Builder
+	for _, tv := range toks {
+		t := AsM(tv)
+		switch S(t, "k") {
+		case "text":
+			sb.WriteString(c.fillerText())
+		case "q":
+			sb.WriteString("?")
+		case "d":
+			n := I(t, "n")
+			if n < 0 {
+				big := []string{"65536", "70000", "4294967296", "9223372036854775807", "9223372036854775808", "18446744073709551616", "99999999999999999999999999"}
+				sb.WriteString("$" + big[c.Rng.Intn(len(big))])
+			} else {
+				sb.WriteString(fmt.Sprintf("$%d", n))
+			}
+		}
+		sb.WriteString(" ")
+	}
+	return sb.String()
 }
 
 func (c *Concretiser) fillerText() string {
